@@ -99,75 +99,89 @@ def gradient_arm_terms(prog, fi):
     ua = exact_arm(d, prog, "UnaryOp")
     if ba is None or ua is None:
         raise AnalysisError(f"{fi.name}: BinaryOp/UnaryOp arms not found")
-    for arm, kind in ((ba, "BinaryOp"), (ua, "UnaryOp")):
-        for conds, assigns, res, node in paths(arm.body):
-            if res is None or isinstance(res, tuple):
-                continue
-            ops = None
-            extra = []
-            for text, pol in conds:
-                t = op_test(ast.parse(text, mode="eval").body)
-                if t and (t[0] == "op" or t[0].endswith(".op")):
-                    if pol and not t[2]:
-                        ops = set(t[1]) if ops is None else ops & set(t[1])
-                elif "phase" in text or "in results" in text:
-                    continue
-                else:
-                    extra.append((text, pol))
-            if not ops or len(ops) != 1:
-                continue
-            op = next(iter(ops))
-            env = {}
-            symbols = {}
-            if kind == "BinaryOp":
-                env.update({"left": L, "right": R, "d_left": DL, "d_right": DR})
-                case = "general"
-                nval = None
-                for text, pol in extra:
-                    if text.startswith("isinstance(right, Constant)"):
-                        case = "const-n" if pol else "general"
-                    if text == "n == 0" and pol:
-                        nval = 0
-                    if text == "n == 1" and pol:
-                        nval = 1
-                if op == "**":
-                    if case == "const-n":
-                        if nval is None:
-                            symbols["n"] = "n"
-                            env["n"] = al.A("n")
-                            key = "BinaryOp ** const n"
-                        else:
-                            env["n"] = al.C(nval)
-                            key = f"BinaryOp ** n={nval}"
-                    else:
-                        key = "BinaryOp ** general"
-                    env[subj] = al.POW(L, "r")
-                    env["expr"] = env[subj]
-                else:
-                    key = f"BinaryOp {op}"
-            else:
-                env.update({"operand": U, "d_operand": DU})
-                try:
-                    env[subj] = al.FUN(op, U)
-                except KeyError:
-                    continue
-                key = f"UnaryOp {op}"
-            tr = Tr(env, symbols)
-            for nm, val in assigns:
-                if nm in ("left", "right", "operand", "d_left", "d_right", "d_operand", "op", "node_id", "left_id", "right_id", "operand_id"):
-                    if nm in env:
-                        continue
-                if nm == "n":
-                    continue
-                if isinstance(val, ast.Tuple):
-                    continue
-                tr.env[nm] = val
-            try:
-                out[key] = tr.t(res)
-            except Untranslatable as e:
-                raise AnalysisError(f"{fi.name} [{key}]: {e}")
-            out[key + "@line"] = node.lineno
+    _arm_terms(fi, ba.body, "BinaryOp", subj, out, {"left": L, "right": R, "d_left": DL, "d_right": DR}, None)
+    before = len(out)
+    _arm_terms(fi, ua.body, "UnaryOp", subj, out, {"operand": U, "d_operand": DU}, subj)
+    if len(out) == before:
+        # the unary rules live in a shared helper: h(<node>, <operand>, <d_operand>)
+        helper = None
+        for c in calls(ast.Module(body=ua.body, type_ignores=[]), local=False):
+            if isinstance(c.func, ast.Name) and len(c.args) == 3:
+                cand = prog.functions.get(f"{fi.module.name}:{c.func.id}")
+                if cand is not None and len(cand.node.args.args) == 3:
+                    helper = cand
+        if helper is None:
+            raise AnalysisError(f"{fi.name}: unary rules not found (neither inline nor in a helper)")
+        p0, p1, p2 = [a.arg for a in helper.node.args.args]
+        _arm_terms(helper, helper.node.body, "UnaryOp", p0, out, {p1: U, p2: DU}, p0)
+        out["@unary-helper"] = helper.name
     return out
+
+
+def _arm_terms(fi, body, kind, subj, out, base_env, self_name):
+    L, R, DL, DR, U, DU = (al.A(x) for x in ("l", "r", "dl", "dr", "u", "du"))
+    for conds, assigns, res, node in paths(body):
+        if res is None or isinstance(res, tuple):
+            continue
+        ops = None
+        extra = []
+        for text, pol in conds:
+            t = op_test(ast.parse(text, mode="eval").body)
+            if t and (t[0] == "op" or t[0].endswith(".op")):
+                if pol and not t[2]:
+                    ops = set(t[1]) if ops is None else ops & set(t[1])
+            elif "phase" in text or "in results" in text:
+                continue
+            else:
+                extra.append((text, pol))
+        if not ops or len(ops) != 1:
+            continue
+        op = next(iter(ops))
+        env = dict(base_env)
+        symbols = {}
+        if kind == "BinaryOp":
+            case = "general"
+            nval = None
+            for text, pol in extra:
+                if text.startswith("isinstance(right, Constant)"):
+                    case = "const-n" if pol else "general"
+                if text == "n == 0" and pol:
+                    nval = 0
+                if text == "n == 1" and pol:
+                    nval = 1
+            if op == "**":
+                if case == "const-n":
+                    if nval is None:
+                        symbols["n"] = "n"
+                        env["n"] = al.A("n")
+                        key = "BinaryOp ** const n"
+                    else:
+                        env["n"] = al.C(nval)
+                        key = f"BinaryOp ** n={nval}"
+                else:
+                    key = "BinaryOp ** general"
+                env[subj] = al.POW(L, "r")
+                env["expr"] = env[subj]
+            else:
+                key = f"BinaryOp {op}"
+        else:
+            try:
+                env[self_name] = al.FUN(op, U)
+            except KeyError:
+                continue
+            key = f"UnaryOp {op}"
+        tr = Tr(env, symbols)
+        for nm, val in assigns:
+            if nm in env or nm in ("op", "node_id", "left_id", "right_id", "operand_id", "n", "left", "right", "operand", "d_left", "d_right", "d_operand"):
+                continue
+            if isinstance(val, ast.Tuple):
+                continue
+            tr.env[nm] = val
+        try:
+            out[key] = tr.t(res)
+        except Untranslatable as e:
+            raise AnalysisError(f"{fi.name} [{key}]: {e}")
+        out[key + "@line"] = node.lineno
 
 
 def reference_terms():
@@ -193,6 +207,7 @@ def check(prog, rep):
     for q in WALKERS:
         fi = prog.func(q)
         terms = gradient_arm_terms(prog, fi)
+        helper_name = terms.pop("@unary-helper", None)
         for key in sorted(k for k in terms if not k.endswith("@line")):
             t = terms[key]
             line = terms.get(key + "@line")
@@ -204,7 +219,8 @@ def check(prog, rep):
             if want is None:
                 raise AnalysisError(f"{fi.name}: no reference for arm {key}")
             ok = t.eq(want)
-            rep.ob("R02.1", f"{fi.name}[{key}]", ok,
+            owner = helper_name if (helper_name and key.startswith("UnaryOp ")) else fi.name
+            rep.ob("R02.1", f"{owner}[{key}]" if owner == fi.name else f"{fi.name}->{owner}[{key}]", ok,
                    f"arm builds D({key.split(' ', 1)[1]}) exactly (normal form)" if ok else
                    f"arm builds {t.key()[:120]}, which is not the derivative {want.key()[:120]} of {key}",
                    loc=f"{fi.module.rel}:{line}", detail="term=D f")
@@ -227,6 +243,7 @@ def check(prog, rep):
         rep.ob("R02.4", fi.name, rf, "consults the gradient registry before its own arms" if rf else "does not consult the gradient registry before its own arms", loc=fi.loc, detail="registry-first")
     # R02.4 unary coverage of the recursive walker = _OPS
     t0 = gradient_arm_terms(prog, prog.func(WALKERS[0]))
+    t0.pop("@unary-helper", None)
     for op in uops:
         ok = f"UnaryOp {op}" in t0
         rep.ob("R02.4", f"_gradient_cached[UnaryOp {op}]", ok, "has a rule" if ok else f"unary operator {op!r} can be constructed but has no gradient rule", loc=prog.func(WALKERS[0]).loc, detail="unary-coverage")
